@@ -101,25 +101,19 @@ theorem PcapRecord_pack_preserves_fields (s : Rec) : (Rec.pack s).1 = s := by
 theorem PcapRecord_pack_idempotent (s : Rec) : Rec.pack (Rec.pack s).1 = Rec.pack s := by
   rw [PcapRecord_pack_preserves_fields]
 
-/- Full statement (false of the faithful model):
-     theorem PcapRecord_unpack_state_independent (t u : Rec) (buf) (h : (Rec.unpack t buf).2 = .ok ()) :
-       Rec.unpack t buf = Rec.unpack u buf
-   `PcapRecord.unpack` decodes the 16-byte header only and leaves `_payload` as it was, so the observable state
-   (`payload`, and the bytes of a following `pack`) depends on what the object held before.  Proved instead: the four
-   header fields do not depend on the prior state, the payload is the prior payload; and the witness. -/
-theorem PcapRecord_unpack_state_independent_partial (t u : Rec) (buf : Bytes) (h : (Rec.unpack t buf).2 = .ok ()) :
-    (Rec.unpack t buf).1 = { (Rec.unpack u buf).1 with payload := t.payload } ∧
-    (Rec.unpack t buf).2 = (Rec.unpack u buf).2 := by
+/-- `PcapRecord.unpack` decodes the 16-byte header and clears the payload: a successful unpack leaves a
+    used object in the state a new object would be in (since the `fix:` commit that clears `_payload`) -/
+theorem PcapRecord_unpack_state_independent (t u : Rec) (buf : Bytes) (h : (Rec.unpack t buf).2 = .ok ()) :
+    Rec.unpack t buf = Rec.unpack u buf := by
   revert h
   simp only [Rec.unpack]
   repeat' split
   all_goals simp_all
 
-/-- the witness: the same 16 bytes leave a used object and a fresh one in different observable states -/
-theorem PcapRecord_unpack_keeps_stale_payload :
-    (Rec.unpack (Rec.fresh.setPayload [0xAB]) (List.replicate 16 0)).1.payload = [0xAB] ∧
-    (Rec.unpack Rec.fresh (List.replicate 16 0)).1.payload = [] ∧
+/-- the former witness of the defect: the same 16 bytes now leave a used object and a fresh one alike -/
+theorem PcapRecord_unpack_clears_stale_payload :
+    (Rec.unpack (Rec.fresh.setPayload [0xAB]) (List.replicate 16 0)).1.payload = [] ∧
     (Rec.unpack (Rec.fresh.setPayload [0xAB]) (List.replicate 16 0)).2 = .ok () :=
-  ⟨by decide, by decide, by rfl⟩
+  ⟨by decide, by rfl⟩
 
 end Acra.Props.C13
